@@ -175,3 +175,6 @@ func SameMap(a, b any) bool { panic("verifspec: proof-only") }
 func ForallOldMap[K comparable, V any](body func(m map[K]V) bool) bool {
 	panic("verifspec: proof-only quantifier")
 }
+
+// ForallValue quantifies over every value of type T (no allocation guard). Proof-only.
+func ForallValue[T any](body func(x T) bool) bool { panic("verifspec: proof-only quantifier") }
